@@ -60,7 +60,11 @@ static int it_next(sqfs_dir_iterator_t *base, sqfs_dir_entry_t **out)
 	if (ret)
 		goto fail;
 
+	/* The inode reference identifies the on-disk inode. All entries live
+	   on one pseudo device; it is non-zero so that the identity of the
+	   inode stored at reference 0 is not mistaken for "unknown". */
 	ent->inode = it->state.ent_ref;
+	ent->dev = 1;
 	sqfs_inode_get_xattr_index(it->inode, &it->xattr_idx);
 
 	*out = ent;
